@@ -584,6 +584,8 @@ class SimTimeModule:
         self._real = real
 
     def sleep(self, d):
+        if d < 0:
+            raise ValueError('sleep length must be non-negative')
         s = _sim()
         tm = _Timer(s, d if d > 0 else 0)
         s.yield_('sleep', repr(d), lambda: tm.fired)
